@@ -143,30 +143,22 @@ def q2_dequeue_sites(ctx, rep):
                       "the dispatch sender is used through %s" % short(A.send_wrapper.path), "%s is called on the dispatch sender: an enqueue/dequeue path that the channel rules do not cover" % short(cb.path))
     rep.floor(R, "consumer dequeue sites", n_cons, 1)
     rep.floor(R, "drop-oldest head pops", n_pop, 1)
-    # callers of the blocking receive wrapper on the dispatch receiver: only the reducer closure
+    # the consumer takes one item at a time: exactly one receive site in the reducer closure
+    # (nested closures included), in the loop header, and no other dequeue on its receiver
     cl, _ = A.reducer_closure
+    fam = [b for b in ctx.prog.bodies if b.path == cl.path or (b.is_closure() and b.path.startswith(cl.path + "::"))]
     n = 0
-    for s in ctx.prog.sites(cl):
-        if A.is_recv_wrapper_call(s):
-            t = ctx.prog.bp(cl).arg_term(s.bb, 0)
-            if strip_wrap(t)[0] == "upvar":
+    for b in fam:
+        for s in ctx.prog.sites(b):
+            if A.is_recv_wrapper_call(s):
                 n += 1
-                rep.check(ctx.prog.cfg(cl).in_cycle(s.bb), R, "consumer-recv-in-loop:%s" % short(cl.path), s.where,
-                          "the consumer's receive is the header of its receive loop", "the consumer receives once only (not in a loop)")
-    rep.floor(R, "receive sites in the consumer closure", n, 1, ctx.where(cl))
-
-
-def _sender_slot_send_sites(ctx):
-    """calls of the send wrapper whose receiver is the content of the store's sender slot"""
-    A = ctx.A
-    out = []
-    for s in ctx.prog.sites():
-        if not A.is_send_wrapper_call(s):
-            continue
-        t = ctx.prog.bp(s.body).arg_term(s.bb, 0)
-        if any(st[0] == "field" and st[2] == A.f_tx for st in subterms(t)):
-            out.append((s, t))
-    return out
+                blocking = any(x.ck in CB_RECV for x in ctx.prog.sites(ctx.prog.callee_body(s)))
+                rep.check(blocking, R, "consumer-waits-for-one-item:%s" % short(b.path), s.where, "the consumer takes items with the blocking receive, one per pass",
+                          "the consumer also takes items with a non-blocking receive (%s): items leave the bounded queue before they are reduced" % short(ctx.prog.callee_body(s).path))
+                if b.path == cl.path:
+                    rep.check(ctx.prog.cfg(cl).in_cycle(s.bb), R, "consumer-recv-in-loop:%s" % short(cl.path), s.where,
+                              "the consumer's receive is the header of its receive loop", "the consumer receives once only (not in a loop)")
+    rep.exact(R, "receive sites in the consumer closure", n, 1, ctx.where(cl))
 
 
 def dispatch_enqueue_events(ctx, path):
@@ -330,6 +322,40 @@ def q5_synchronous_enqueue(ctx, rep):
 def _upvar_home(ctx, body, t):
     from rules.subs import _resolve_upvars
     return _resolve_upvars(ctx, body, t)
+
+
+def q9_dispatch_fails_only_when_closed(ctx, rep):
+    """under the blocking policy a dispatch never gives up: an entry point returns Err only when
+    the sender slot is empty (closed) or the enqueue itself reported Err; the sender lock is taken
+    with the blocking lock()"""
+    A = ctx.A
+    R = "Q9"
+    n = 0
+    for e in dispatch_entries(ctx):
+        rep.note_fn(e.path)
+        pe = ctx.paths(e, inline=True)
+        rep.stats["paths"] += len(pe.paths)
+        for p in pe.paths:
+            if p.end != "return":
+                continue
+            ret = p.ret
+            is_err = ret is not None and ret[0] == "agg" and ret[1].endswith("Result::Err")
+            locks = [ev for ev in p.calls() if ev.site is not None and ev.ck.startswith("std::sync::Mutex::") and ev.args and any(st[0] == "field" and st[2] == A.f_tx for st in subterms(ev.args[0]))]
+            for ev in locks:
+                rep.check(ev.ck == "std::sync::Mutex::lock", R, "waits-for-the-sender-lock:%s" % short(e.path), ev.site.where, "the sender slot is locked with the blocking lock()", "the sender slot is locked with %s: a dispatch racing another one fails instead of waiting" % ev.ck.split("::")[-1])
+            if not is_err:
+                continue
+            n += 1
+            slot = [v for (k, v) in p.decisions if k[0] == "discr" and k[1][0] != "lockres" and any(st[0] == "field" and st[2] == A.f_tx for st in subterms(k[1]))]
+            closed = bool(slot) and slot[0].lstrip("*") == "None"
+            enq = dispatch_enqueue_events(ctx, p)
+            enq_err = False
+            for ev in enq:
+                for k, v in p.decisions:
+                    if k == ("discr", ev.result) and v.lstrip("*") == "Err":
+                        enq_err = True
+            rep.check(closed or enq_err, R, "err-only-when-closed-or-rejected:%s" % short(e.path), ctx.where(e), "Err path [%s]: store closed or enqueue rejected" % p.describe(), "path [%s] returns Err although the store is open and nothing was rejected by the queue: the action is discarded instead of waiting" % p.describe())
+    rep.floor(R, "Err-returning dispatch paths", n, 3)
 
 
 def q6_sequential_consumer(ctx, rep):
